@@ -227,7 +227,10 @@ func (r *Transport) writeLoop() {
 					r.mu.Lock()
 					if reconnectErr := r.reconnect(tr); reconnectErr != nil {
 						r.mu.Unlock()
-						writeOrDone(r.ctx, writeRes{err: fmt.Errorf("reconnect cause[%v]: %w", err, reconnectErr)}, r.writeResCh[data.id])
+						r.writeResMu.RLock()
+						resCh := r.writeResCh[data.id]
+						r.writeResMu.RUnlock()
+						writeOrDone(r.ctx, writeRes{err: fmt.Errorf("reconnect cause[%v]: %w", err, reconnectErr)}, resCh)
 						// the redial budget is exhausted: nobody will serve later writes, fail them instead of blocking
 						r.cancel()
 						return
